@@ -14,6 +14,11 @@ Props/C18Reloc.lean — C18-R1 (relocation), statement level.
                          16-bit field moves by `D`.
 (d) `reloc_finish`     : `fixAll`, final symbol table, origin and name for a program all of whose statements
                          are in one of the two classes: same outcome kind, labels move by `D`, EQU unchanged.
+                         Model batch 4 (`evalSyms`: an EQU defined by an expression is listed with its VALUE): "EQU
+                         unchanged" needs the hypothesis `NoLabelEqu t` (no EQU is defined by a label expression);
+                         `reloc_finish_equ` is the finer statement without it: an EQU defined by a label expression
+                         moves like a statement operand with that expression (`EquRel`, Lemmas/RelocEqu.lean).
+                         `orgOK_relocIn` (model batch 5): the ORG check before `assignAddrs` is invariant.
 (e) `*_label_plus`, `*_label_minus` (repair batch B2): `label + N`, `label - N` with a SIGNED constant `N` (a
                          negative EQU counts negatively): membership in the classes in arithmetic terms, the stored
                          values in closed form, and what happens outside the classes (the 16-bit field moves by `D`
@@ -30,6 +35,7 @@ import CoCoVerif.Lemmas.RelocAll
 import CoCoVerif.Lemmas.RelocSigned
 import CoCoVerif.Lemmas.RelocMod
 import CoCoVerif.Lemmas.RelocNeg
+import CoCoVerif.Lemmas.RelocEqu
 import CoCoVerif.Props.C18
 
 namespace CoCo.Props
@@ -83,6 +89,19 @@ theorem relocIn_head {D : Nat} {s0 : Stmt} {r0 ss' : List Stmt} {o : Nat} {m : M
   rcases hr with ⟨h1, _⟩ | ⟨o1, m1, h1, rfl⟩
   · rw [h0] at h1; cases h1
   · rw [h0] at h1; cases h1; rfl
+
+/-- (model batch 5) the check "an ORG comes before the first label and the first byte", made on the statements that enter
+`assignAddrs`, gives the same answer on the relocated program: it looks at rows, labels and sizes only -/
+theorem orgOK_relocIn {D : Nat} : ∀ (ss ss' : List Stmt) (laid : Bool), PW (RelocIn D) ss ss' →
+    orgOK ss' laid = orgOK ss laid := by
+  intro ss
+  induction ss with
+  | nil => intro ss' laid h; rw [h.nil_left]
+  | cons s rest ih =>
+    intro ss' laid h
+    obtain ⟨s', rest', rfl, hr, hrest⟩ := h.cons_left
+    rw [orgOK, orgOK, ih rest' _ hrest]
+    rcases hr with ⟨_, rfl⟩ | ⟨o, m, _, rfl⟩ <;> rfl
 
 /-! ## (a) address assignment -/
 
@@ -307,10 +326,12 @@ def AsmRel (D : Nat) (t : SymTab) (A B : Assembly) : Prop :=
     t A.symtab ∧
   B.origin = shiftV D A.origin ∧ B.name = A.name
 
-/-- (d) `fixAll`, `finalSymTab`, origin and name: identical outcome kind, results related by `AsmRel` -/
+/-- (d) `fixAll`, `evalSyms`, `finalSymTab`, origin and name: identical outcome kind, results related by `AsmRel`.
+Model batch 4: `hequ` — no EQU of the table is defined by a label expression (such an EQU is listed with its value, which
+moves; see `reloc_finish_equ`) -/
 theorem reloc_finish (h : PW (RelocOut D) as as')
-    (hcov : ∀ (i : Nat) (s : Stmt), as[i]? = some s → Unmoved D as s ∨ Moved D as s) (t : SymTab) :
-    OutRel (AsmRel D t) (finish t as) (finish t as') := by
+    (hcov : ∀ (i : Nat) (s : Stmt), as[i]? = some s → Unmoved D as s ∨ Moved D as s) (t : SymTab)
+    (hequ : NoLabelEqu t) : OutRel (AsmRel D t) (finish t as) (finish t as') := by
   have hfix := reloc_fixAll h hcov
   unfold finish
   generalize fixAll as 0 as = o at hfix ⊢
@@ -320,13 +341,20 @@ theorem reloc_finish (h : PW (RelocOut D) as as')
     rename_i fs fs'
     dsimp only
     have hsh : PW (AddrShift D) fs fs' := hr.mono (fun _ _ r => r.2)
-    rw [finalSymTab_reloc hsh]
-    cases finalSymTab fs t with
-    | ok r =>
-      simp only [Outcome.map_ok]
-      refine .ok ⟨hr, rfl, ?_, ?_⟩
-      · exact origin_reloc fs fs' .none (hr.mono (fun _ _ r => r.row_addr))
-      · exact name_reloc fs fs' none (hr.mono (fun _ _ r => r.row_operand))
+    rw [evalSyms_const fs fs' t t hequ]
+    cases he : evalSyms fs t t with
+    | ok t1 =>
+      dsimp only
+      rw [finalSymTab_reloc hsh]
+      cases finalSymTab fs t1 with
+      | ok r =>
+        simp only [Outcome.map_ok]
+        refine .ok ⟨hr, zipWith_evalSyms (shiftV D) he r, ?_, ?_⟩
+        · exact origin_reloc fs fs' .none (hr.mono (fun _ _ r => r.row_addr))
+        · exact name_reloc fs fs' none (hr.mono (fun _ _ r => r.row_operand))
+      | diag => exact .diag
+      | internal => exact .internal
+      | diverged => exact .diverged
     | diag => exact .diag
     | internal => exact .internal
     | diverged => exact .diverged
@@ -627,11 +655,11 @@ def AsmRelMod (D : Nat) (t : SymTab) (A B : Assembly) : Prop :=
     t A.symtab ∧
   B.origin = shiftV D A.origin ∧ B.name = A.name
 
-/-- (d, three classes) `fixAll`, `finalSymTab`, origin and name: identical outcome kind, results related by
-`AsmRelMod` -/
+/-- (d, three classes) `fixAll`, `evalSyms`, `finalSymTab`, origin and name: identical outcome kind, results related by
+`AsmRelMod`; `hequ` as in `reloc_finish` -/
 theorem reloc_finish_mod (h : PW (RelocOut D) as as')
-    (hcov : ∀ (i : Nat) (s : Stmt), as[i]? = some s → Unmoved D as s ∨ Moved D as s ∨ MovedMod D as s) (t : SymTab) :
-    OutRel (AsmRelMod D t) (finish t as) (finish t as') := by
+    (hcov : ∀ (i : Nat) (s : Stmt), as[i]? = some s → Unmoved D as s ∨ Moved D as s ∨ MovedMod D as s) (t : SymTab)
+    (hequ : NoLabelEqu t) : OutRel (AsmRelMod D t) (finish t as) (finish t as') := by
   have hfix := reloc_fixAll_mod h hcov
   unfold finish
   generalize fixAll as 0 as = o at hfix ⊢
@@ -641,13 +669,20 @@ theorem reloc_finish_mod (h : PW (RelocOut D) as as')
     rename_i fs fs'
     dsimp only
     have hsh : PW (AddrShift D) fs fs' := hr.mono (fun _ _ r => r.2)
-    rw [finalSymTab_reloc hsh]
-    cases finalSymTab fs t with
-    | ok r =>
-      simp only [Outcome.map_ok]
-      refine .ok ⟨hr, rfl, ?_, ?_⟩
-      · exact origin_reloc fs fs' .none (hr.mono (fun _ _ r => r.row_addr))
-      · exact name_reloc fs fs' none (hr.mono (fun _ _ r => r.row_operand))
+    rw [evalSyms_const fs fs' t t hequ]
+    cases he : evalSyms fs t t with
+    | ok t1 =>
+      dsimp only
+      rw [finalSymTab_reloc hsh]
+      cases finalSymTab fs t1 with
+      | ok r =>
+        simp only [Outcome.map_ok]
+        refine .ok ⟨hr, zipWith_evalSyms (shiftV D) he r, ?_, ?_⟩
+        · exact origin_reloc fs fs' .none (hr.mono (fun _ _ r => r.row_addr))
+        · exact name_reloc fs fs' none (hr.mono (fun _ _ r => r.row_operand))
+      | diag => exact .diag
+      | internal => exact .internal
+      | diverged => exact .diverged
     | diag => exact .diag
     | internal => exact .internal
     | diverged => exact .diverged
@@ -870,12 +905,12 @@ def AsmRelNeg (D : Nat) (t : SymTab) (A B : Assembly) : Prop :=
     t A.symtab ∧
   B.origin = shiftV D A.origin ∧ B.name = A.name
 
-/-- (d, four classes) `fixAll`, `finalSymTab`, origin and name: identical outcome kind, results related by
-`AsmRelNeg` -/
+/-- (d, four classes) `fixAll`, `evalSyms`, `finalSymTab`, origin and name: identical outcome kind, results related by
+`AsmRelNeg`; `hequ` as in `reloc_finish` -/
 theorem reloc_finish_neg (h : PW (RelocOut D) as as')
     (hcov : ∀ (i : Nat) (s : Stmt), as[i]? = some s →
-      Unmoved D as s ∨ Moved D as s ∨ MovedMod D as s ∨ MovedNeg as s) (t : SymTab) :
-    OutRel (AsmRelNeg D t) (finish t as) (finish t as') := by
+      Unmoved D as s ∨ Moved D as s ∨ MovedMod D as s ∨ MovedNeg as s) (t : SymTab)
+    (hequ : NoLabelEqu t) : OutRel (AsmRelNeg D t) (finish t as) (finish t as') := by
   have hfix := reloc_fixAll_neg h hcov
   unfold finish
   generalize fixAll as 0 as = o at hfix ⊢
@@ -885,19 +920,102 @@ theorem reloc_finish_neg (h : PW (RelocOut D) as as')
     rename_i fs fs'
     dsimp only
     have hsh : PW (AddrShift D) fs fs' := hr.mono (fun _ _ r => r.2)
-    rw [finalSymTab_reloc hsh]
-    cases finalSymTab fs t with
-    | ok r =>
-      simp only [Outcome.map_ok]
-      refine .ok ⟨hr, rfl, ?_, ?_⟩
-      · exact origin_reloc fs fs' .none (hr.mono (fun _ _ r => r.row_addr))
-      · exact name_reloc fs fs' none (hr.mono (fun _ _ r => r.row_operand))
+    rw [evalSyms_const fs fs' t t hequ]
+    cases he : evalSyms fs t t with
+    | ok t1 =>
+      dsimp only
+      rw [finalSymTab_reloc hsh]
+      cases finalSymTab fs t1 with
+      | ok r =>
+        simp only [Outcome.map_ok]
+        refine .ok ⟨hr, zipWith_evalSyms (shiftV D) he r, ?_, ?_⟩
+        · exact origin_reloc fs fs' .none (hr.mono (fun _ _ r => r.row_addr))
+        · exact name_reloc fs fs' none (hr.mono (fun _ _ r => r.row_operand))
+      | diag => exact .diag
+      | internal => exact .internal
+      | diverged => exact .diverged
     | diag => exact .diag
     | internal => exact .internal
     | diverged => exact .diverged
   | diag => exact .diag
   | internal => exact .internal
   | diverged => exact .diverged
+
+/-! ### (d, model batch 4) the finer statement: EQUs defined by label expressions -/
+
+/-- the final symbol tables `r` (original) and `r'` (relocated), entry by entry along the table `t` built from the
+labels: the same key, and values related by `EquRel` — a label moves by `D`, an EQU that is not defined by a label
+expression stays, an EQU defined by a label expression moves like that expression (`label ± k` by `D`, `label ± N` by
+`D` modulo `$10000`, `label - label` not at all, `number - label` by MINUS `D` modulo `$10000`) -/
+def SymRel (D : Nat) (as : List Stmt) (t r r' : SymTab) : Prop :=
+  ∀ (j : Nat) (k : Str) (v : Value), t[j]? = some (k, v) →
+    ∃ x x', r[j]? = some (k, x) ∧ r'[j]? = some (k, x') ∧ EquRel D as t v x x'
+
+/-- as `AsmRelNeg`, with the symbol tables related by `SymRel` -/
+def AsmRelEqu (D : Nat) (as : List Stmt) (t : SymTab) (A B : Assembly) : Prop :=
+  PW (FinalRelNeg D) A.stmts B.stmts ∧
+  A.symtab.length = t.length ∧ B.symtab.length = t.length ∧ SymRel D as t A.symtab B.symtab ∧
+  B.origin = shiftV D A.origin ∧ B.name = A.name
+
+/-- (d, four classes, EQUs defined by label expressions allowed) `fixAll`, `evalSyms`, `finalSymTab`, origin and name
+for a program all of whose statements are in one of the four classes and all of whose table entries are labels, EQUs not
+defined by a label expression, or EQUs defined by a label expression of one of the four expression classes
+(`EquCovered`): identical outcome kind, results related by `AsmRelEqu` -/
+theorem reloc_finish_equ (h : PW (RelocOut D) as as')
+    (hcov : ∀ (i : Nat) (s : Stmt), as[i]? = some s →
+      Unmoved D as s ∨ Moved D as s ∨ MovedMod D as s ∨ MovedNeg as s) (t : SymTab)
+    (hequ : ∀ kv ∈ t, EquCovered D as t kv.2) :
+    OutRel (AsmRelEqu D as t) (finish t as) (finish t as') := by
+  have hfix := reloc_fixAll_neg h hcov
+  have hI : PW (AddrShiftI D) as as' := RelocOut.addrShiftI h
+  unfold finish
+  generalize hfa : fixAll as 0 as = o at hfix ⊢
+  generalize hfb : fixAll as' 0 as' = o' at hfix ⊢
+  cases hfix with
+  | ok hr =>
+    rename_i fs fs'
+    dsimp only
+    have hsh : PW (AddrShift D) fs fs' := hr.mono (fun _ _ r => r.2)
+    have hs := fixAll_sameAddr hfa
+    have hs' := fixAll_sameAddr hfb
+    have hev := evalSyms_outRel hI t t hequ
+    rw [← evalSyms_sameAddr hs, ← evalSyms_sameAddr hs'] at hev
+    generalize he : evalSyms fs t t = o1 at hev ⊢
+    generalize he' : evalSyms fs' t t = o1' at hev ⊢
+    cases hev with
+    | ok hp =>
+      rename_i t1 t1'
+      dsimp only
+      have hfin := finalSymTab_outRel (hsh.mono (fun _ _ => AddrShift.toI)) t1 t1' hp
+      generalize hf : finalSymTab fs t1 = o2 at hfin ⊢
+      generalize hf' : finalSymTab fs' t1' = o2' at hfin ⊢
+      cases hfin with
+      | ok _ =>
+        rename_i r r'
+        dsimp only
+        refine .ok ⟨hr, ?_, ?_, ?_, ?_, ?_⟩
+        · exact (finalSymTab_length hf).trans (evalSyms_length he)
+        · exact (finalSymTab_length hf').trans (evalSyms_length he')
+        · intro j k v hj
+          exact symtab_reloc_entry hI hs hs' hsh he he' hf hf' hj
+        · exact origin_reloc fs fs' .none (hr.mono (fun _ _ r => r.row_addr))
+        · exact name_reloc fs fs' none (hr.mono (fun _ _ r => r.row_operand))
+      | diag => exact .diag
+      | internal => exact .internal
+      | diverged => exact .diverged
+    | diag => exact .diag
+    | internal => exact .internal
+    | diverged => exact .diverged
+  | diag => exact .diag
+  | internal => exact .internal
+  | diverged => exact .diverged
+
+/-- (d, finer statement, read off) a table without EQUs defined by label expressions is covered -/
+theorem equCovered_of_noLabelEqu {as : List Stmt} {t : SymTab} (h : NoLabelEqu t) : ∀ kv ∈ t, EquCovered D as t kv.2 := by
+  intro kv hkv
+  by_cases ha : kv.2.isAddress = true
+  · exact .inl ha
+  · exact .inr (.inl ⟨by simpa using ha, h kv hkv⟩)
 
 end negative
 
